@@ -40,19 +40,26 @@ var (
 	blocked  = map[string]bool{
 		"chan receive": true, "chan send": true, "select": true, "select (no cases)": true,
 		"sync.Mutex.Lock": true, "sync.RWMutex.Lock": true, "sync.RWMutex.RLock": true,
-		"semacquire": true, "sync.Cond.Wait": true, "sync.WaitGroup.Wait": true,
+		"sync.Cond.Wait": true, "sync.WaitGroup.Wait": true,
+		// not "semacquire": with go >= 1.20 that is a wait inside the runtime (a goroutine that allocates
+		// while a GC cycle starts), it ends without any goroutine of ours
 		"chan receive (nil chan)": true, "chan send (nil chan)": true,
 	}
 )
 
-var lastQuiet []byte
+var (
+	lastQuiet []byte
+	stackBuf  = make([]byte, 1<<18)
+)
 
+// stacks of all goroutines (stops the world); only the controller calls it
 func stacks() []byte {
-	for n := 1 << 18; ; n *= 2 {
-		buf := make([]byte, n)
-		if k := runtime.Stack(buf, true); k < n {
-			return buf[:k]
+	for {
+		if k := runtime.Stack(stackBuf, true); k < len(stackBuf) {
+			return stackBuf[:k]
 		}
+
+		stackBuf = make([]byte, 2*len(stackBuf))
 	}
 }
 
